@@ -20,8 +20,9 @@ CLAIMS = {
          "last record of that key (entry, or absent for a tombstone); records of other keys are irrelevant; induction over "
          "histories via the cut lemma, generic in the codec laws. Correspondence: random histories of writes / removals "
          "through all entry points and flavours against the model and a dictionary monitor.",
-    note=TB + "the index theorems are stated for any codec satisfying Codec.Laws; that the serde/SHA-256 codec is an "
-         "instance is proved separately (Lemmas/Record) or, until then, validated by the C17 correspondence.",
+    note=TB + "the index theorems are stated for any codec satisfying Codec.Laws on a set W of records; that the serde/SHA-256 "
+         "codec is an instance with W = Rec.WF is PROVED (Lemmas/CodecLaws, any hash function) and instantiated as "
+         "lookup_last_wins_cacache / lookup_never_written_cacache.",
     technique="Lean 4 proof by induction over histories (cut lemma) + differential correspondence"),
  "C06": dict(
     text="Theorems (Props/C06): a newline cuts a bucket into independently decoded halves; arbitrary newline-free bytes "
@@ -64,12 +65,12 @@ CLAIMS.update({
     text="Theorems (Props/C02, from the demonic wp `wpD` of the whole write): whenever a write answers ok - healthy run and "
          "every fault plan - the answer is the digest of all bytes fed (declared integrity for keyed writers), the "
          "content path exists, the store is valid, and the key's bucket is the old bytes plus the whole new record with "
-         "that integrity and byte count; reading that state back by address and by key yields exactly the data (given the "
-         "codec laws, a non-colliding digest on the two strings involved, a settled bucket). Correspondence: all write "
+         "that integrity and byte count; reading that state back by address and by key yields exactly the data (given a "
+         "non-colliding digest on the two strings involved; the record-codec laws are proved, read_back_by_key_cacache). Correspondence: all write "
          "entry points x sizes x chunkings x algorithms against the model, hashlib monitor on addresses and read-back.",
     note=TB + "`_partial`: that a healthy run DOES answer ok on every healthy filesystem is exercised by the correspondence "
-         "only; Codec.Laws for the serde/SHA-256 codec (JSON round trip) is a hypothesis of read_back_by_key, validated by "
-         "the C11/C17 correspondence.",
+         "only. The record codec's round trip is a theorem (Lemmas/JsonRT, Lemmas/Record, Lemmas/CodecLaws) for records "
+         "in Rec.WF: what Rust's types guarantee plus JSON nesting < 127 (the excluded point is known finding F9).",
     technique="Lean 4 proof (demonic weakest precondition over filesystem calls) + differential correspondence"),
  "C03": dict(
     text="Theorems (Props/C03): ContentValid (every regular file at a content address hashes to it, for an arbitrary "
@@ -90,8 +91,11 @@ CLAIMS.update({
          "bytes are inert; phases before the index insert never aim at the index area (content first). Tie: torn-append "
          "buckets at sampled byte lengths incl. multi-byte UTF-8 via the reference encoder, real SIGKILL sweeps with "
          "old-or-new / other-keys / visible=>readable / later-write monitors.",
-    note=TB + "TornLaws.prefix_none (a strict prefix of a record line does not decode) is a hypothesis: it needs SHA-256 "
-         "not to collide on {json, prefix of json}; Settled b0 holds for every bucket the library produced.",
+    note=TB + "TornLaws.prefix_none (a strict prefix of a record line does not decode) is PROVED for the concrete codec and "
+         "EVERY hash function (Rec.prefix_none: a cut JSON object never parses - parser extension-stability), so "
+         "torn_entries_cacache / torn_lookup_cacache / torn_then_history_cacache carry no codec or hash hypothesis; records "
+         "must be Rec.WF (Rust's types + nesting < 127); Settled b0 holds for every bucket ending in a whole record "
+         "(settled_cacache).",
     technique="Lean 4 proof (wpD at every crash cut + line-reader algebra) + real kill sweeps"),
  "C07": dict(
     text="Theorems (Props/C07, Prog.interleave: any number of processes, any schedule, calls atomic): every bucket is at "
@@ -161,10 +165,12 @@ CLAIMS.update({
          "record text lists the six fields in fixed order. Correspondence: type-directed JSON, 64-bit integer edges, "
          "control/non-ASCII strings, 128-bit times, all byte values as raw metadata, through every write entry point and "
          "both flavours, field-by-field monitor; nesting depths around serde_json's limit (known finding F9).",
-    note=TB + "the JSON half of 'returned exactly' (dec (enc r) = some r for the serde/SHA-256 codec) is the hypothesis "
-         "Codec.Laws, validated against serde_json itself by ~45k differential cases of the JSON model and by this "
-         "correspondence; decimals are exercised by the JSON differential test only.",
-    technique="Lean 4 proof (record classification + index algebra; codec round trip as hypothesis) + differential correspondence"),
+    note=TB + "the JSON half of 'returned exactly' is a theorem over the model's serde_json (Json.parse_render: every "
+         "well-formed value nested < 128 levels incl. all integers, floats, strings; Rec.dec_enc for the record line), "
+         "instantiated as metadata_returned_cacache; the proof's one forced hypothesis (metadata nested <= 126 levels) is "
+         "exactly where the real code fails (known finding F9). That Json.lean IS serde_json is validated by ~45k "
+         "differential cases and by this correspondence.",
+    technique="Lean 4 proof (JSON / record-line round trip + record classification + index algebra) + differential correspondence"),
  "C12": dict(
     text="Theorems (Props/C12): in the model, lookups, reads, extractions, removals, listing and index insertion have no "
          "flavour parameter at all; for the writers (the only flavour-dependent programs) both flavours return the same "
@@ -181,7 +187,8 @@ CLAIMS.update({
          "bucket and content path maps are injective up to digest equality; index, content and temp areas are disjoint; "
          "decoding a bucket of framed records yields exactly those records. The Lean driver and lib/vf/layout.py are two "
          "independent implementations of the format, exercised in both directions against the library.",
-    note=TB + "decode(encode) uses Codec.Laws (see C11); XXH3 paths are exercised through the library only.",
+    note=TB + "decode(encode) is proved for the real line format (decode_encode_line, decode_encode_bucket_cacache; see C11); "
+         "XXH3 digests enter the model through an oracle table filled from the real crate.",
     technique="Lean 4 proof (format definitions + injectivity) + two independent implementations, both directions"),
  "C19": dict(
     text="Theorems (Props/C19): every mutating call of a link commit is aimed inside the cache (a target outside is never a "
